@@ -412,15 +412,33 @@ func (p *Pair) String() string {
 func sortedPairStrings(pairs map[*Ident]Expr) []string {
 	// NOTE: sort kwargs by ident name (otherwise order is random!)
 	type p struct {
-		k string
-		v string
+		k    string
+		v    string
+		line int
+		col  int
 	}
 
 	kwargs := []p{}
 	for k, arg := range pairs {
-		kwargs = append(kwargs, p{k: k.String(), v: arg.String()})
+		kwarg := p{k: k.String(), v: arg.String()}
+		if k.Src != nil {
+			kwarg.line, kwarg.col = k.Src.Pos.Line, k.Src.Pos.Column
+		}
+		kwargs = append(kwargs, kwarg)
 	}
-	sort.Slice(kwargs, func(i, j int) bool { return kwargs[i].k < kwargs[j].k })
+	sort.Slice(kwargs, func(i, j int) bool {
+		if kwargs[i].k != kwargs[j].k {
+			return kwargs[i].k < kwargs[j].k
+		}
+		// NOTE: duplicated names are kept in written order (otherwise order is random!)
+		if kwargs[i].line != kwargs[j].line {
+			return kwargs[i].line < kwargs[j].line
+		}
+		if kwargs[i].col != kwargs[j].col {
+			return kwargs[i].col < kwargs[j].col
+		}
+		return kwargs[i].v < kwargs[j].v
+	})
 
 	sortedStrings := []string{}
 	for _, kwarg := range kwargs {
